@@ -2,7 +2,9 @@
 import hashlib
 import os
 import re
+import signal
 import subprocess
+import threading
 import time
 
 VERIF = os.path.dirname(os.path.dirname(os.path.abspath(__file__)))
@@ -78,21 +80,51 @@ def predicted_cost(job):
     return c
 
 
-def run_job(job, sim_dir=SIM_DIR, repo_marker=REPO, timeout_factor=10.0):
+_LIVE = set()
+_LIVE_LOCK = threading.Lock()
+
+
+def _kill(p):
+    try:
+        os.killpg(p.pid, signal.SIGKILL)
+    except (ProcessLookupError, PermissionError):
+        pass
+
+
+def kill_all_live():
+    with _LIVE_LOCK:
+        for p in list(_LIVE):
+            _kill(p)
+
+
+def run_job(job, sim_dir=SIM_DIR, repo_marker=REPO, timeout_factor=10.0, cancel=None):
     """Execute one simulated run in a fresh process.  Returns a result dict:
     {status: ok|ub|deadlock|harness|timeout, log, stderr, wall, ...}."""
     flags = miriflags(job["miri_seed"], job["preempt"], job.get("extra_flags", ()))
     cmd = ["cargo", "+nightly", "miri", "run", "-q", "--offline", "--"] + argv_of(job)
     tmo = max(180.0, timeout_factor * predicted_cost(job))
     t0 = time.time()
+    if cancel is not None and cancel.is_set():
+        return {"status": "cancelled", "wall": 0.0, "log": "", "stderr": "", "cmd": cmd, "flags": flags}
+    p = subprocess.Popen(cmd, cwd=sim_dir, env=env_for(flags), stdout=subprocess.PIPE, stderr=subprocess.PIPE, start_new_session=True)
+    with _LIVE_LOCK:
+        _LIVE.add(p)
     try:
-        p = subprocess.run(cmd, cwd=sim_dir, env=env_for(flags), capture_output=True, timeout=tmo)
-    except subprocess.TimeoutExpired as e:
-        return {"status": "timeout", "wall": time.time() - t0, "log": "", "stderr": (e.stderr or b"").decode("utf-8", "replace")[-4000:],
-                "cmd": cmd, "flags": flags, "timeout_s": tmo}
+        try:
+            so, se = p.communicate(timeout=tmo)
+        except subprocess.TimeoutExpired:
+            _kill(p)
+            so, se = p.communicate()
+            return {"status": "timeout", "wall": time.time() - t0, "log": "", "stderr": (se or b"").decode("utf-8", "replace")[-4000:],
+                    "cmd": cmd, "flags": flags, "timeout_s": tmo, "why": f"no result within {tmo:.0f}s (10x the predicted cost): possible non-termination"}
+    finally:
+        with _LIVE_LOCK:
+            _LIVE.discard(p)
     wall = time.time() - t0
-    out = p.stdout.decode("utf-8", "replace")
-    err = p.stderr.decode("utf-8", "replace")
+    if cancel is not None and cancel.is_set() and p.returncode not in (0, 1):
+        return {"status": "cancelled", "wall": wall, "log": "", "stderr": "", "cmd": cmd, "flags": flags}
+    out = so.decode("utf-8", "replace")
+    err = se.decode("utf-8", "replace")
     res = {"wall": wall, "log": out, "stderr": err[-20000:], "cmd": cmd, "flags": flags, "rc": p.returncode}
     if p.returncode == 0 and out.endswith("E\n"):
         res["status"] = "ok"
